@@ -153,6 +153,18 @@ func genRawPlan(r *rand.Rand) *ProxyPlan {
 		}
 	}
 	p.Clients = [][]PReq{reqs}
+	if r.IntN(6) == 0 {
+		// a cache that can hold nothing (memory budget 0 %: a valid configuration), one byte, or a
+		// single representation: every store meets the full-cache path
+		switch k := r.IntN(3); {
+		case k == 0 && p.Backend == "memory":
+			p.MemBudget0 = true
+		case k == 1:
+			p.MaxSize = 1
+		default:
+			p.MaxSize = 50
+		}
+	}
 	return p
 }
 
